@@ -1,6 +1,7 @@
 package main
 
 import (
+	"fmt"
 	"go/types"
 	"strings"
 
@@ -197,7 +198,31 @@ func propC15(a *Analysis, r *Registry) {
 			copyXT := S.MakeFn(mat+"DenseCopyOf", XT)
 			xtw := mul.fc.Val(mul.Call.Args[1])
 			wantXTW := S.Ite(env.MustParse("weights==nil"), XT, copyXT)
-			b.EqRF(rB, name+"/XTW", a.W.InstrPos(mul.in), xtw, wantXTW, "XTW is XT when unweighted, else a copy of XT")
+			// second stated shape of the weighted matrix: a fresh backing array W of the
+			// same size filled element by element, W[r*len(xs)+j] = xTVals[r*len(xs)+j] *
+			// weights[j] for every row r and column j, wrapped as a len(terms) x len(xs) matrix
+			nMEV := 0
+			for _, sfc := range fcs {
+				sfc.Ctx.Instrs(func(in ssa.Instruction) {
+					if c, ok := in.(*ssa.Call); ok {
+						if f := c.Call.StaticCallee(); f != nil && strings.HasSuffix(f.String(), "mat.VecDense).MulElemVec") {
+							nMEV++
+						}
+					}
+				})
+			}
+			var filled *RF
+			if nMEV == 0 {
+				if it := xtw.SingleAtom(); it != nil && it.Name == "ite" {
+					if nd := it.Args[2].SingleAtom(); nd != nil && nd.Name == mat+"NewDense" && len(nd.Args) == 3 {
+						if wa := nd.Args[2].SingleAtom(); wa != nil && strings.HasPrefix(wa.Name, "makeslice:") {
+							filled = nd.Args[2]
+							wantXTW = S.Ite(env.MustParse("weights==nil"), XT, S.MakeFn(mat+"NewDense", env.MustParse("len(terms)"), env.MustParse("len(xs)"), filled))
+						}
+					}
+				}
+			}
+			b.EqRF(rB, name+"/XTW", a.W.InstrPos(mul.in), xtw, wantXTW, "XTW is XT when unweighted, else a weighted copy of XT")
 			b.EqRF(rB, name+"/lhs=XTW·X", a.W.InstrPos(mul.in), mul.fc.Val(mul.Call.Args[2]), X.Invoke("T", XT), "lhs.Mul(XTW, XT.T())")
 			b.EqRF(rB, name+"/rhs uses XTW", a.W.InstrPos(mulv.in), mulv.fc.Val(mulv.Call.Args[1]), xtw, "rhs.MulVec(XTW, ·) uses the same (weighted) matrix")
 			b.EqAt(rB, name+"/rhs=XTW·y", a.W.InstrPos(mulv.in), mulv.fc, mulv.in, mulv.fc.Val(mulv.Call.Args[2]), S.MakeFn(mat+"NewVecDense", env.MustParse("len(ys)"), env.Vars["ys"].RF), "y wraps ys")
@@ -216,18 +241,71 @@ func propC15(a *Analysis, r *Registry) {
 				r.OK("C-order", name+"/products-before-solve", b.pos(fn), "Mul and MulVec dominate SolveVec")
 			}
 			// weighting loop
-			mev := one("mat.VecDense).MulElemVec")
-			row := mev.fc.Val(mev.Call.Args[0])
-			b.EqRF(rB, name+"/weights/in-place", a.W.InstrPos(mev.in), mev.fc.Val(mev.Call.Args[1]), row, "each row is multiplied in place")
-			b.EqRF(rB, name+"/weights/vector", a.W.InstrPos(mev.in), mev.fc.Val(mev.Call.Args[2]), S.MakeFn(mat+"NewVecDense", env.MustParse("len(weights)"), env.Vars["weights"].RF), "by the weight vector")
-			rvw := row.SingleAtom()
-			if rvw == nil || rvw.Name != "call:RowView" || !rvw.Args[0].Equal(copyXT) {
-				r.Fail(rB, name+"/weights/rows-of-copy", a.W.InstrPos(mev.in), "the rows weighted are not rows of the copy of XT: "+clip(row.String(), 200))
+			if filled != nil {
+				b.guard(rB, name+"/weights/elementwise", func() {
+					b.EqRF(rB, name+"/weights/size", b.pos(fn), S.MakeFn("len", filled), env.MustParse("len(terms)*len(xs)"), "the weighted backing array has the size of xTVals")
+					var st *ssa.Store
+					var sfc0 *FC
+					n := 0
+					for _, sfc := range fcs {
+						sfc := sfc
+						sfc.Ctx.Instrs(func(in ssa.Instruction) {
+							if v, ok := in.(*ssa.Store); ok {
+								if ia, ok := v.Addr.(*ssa.IndexAddr); ok && sfc.Val(ia.X).Equal(filled) {
+									st, sfc0 = v, sfc
+									n++
+								}
+							}
+						})
+					}
+					if n != 1 {
+						r.Fail(rB, name+"/weights/elementwise", b.pos(fn), fmt.Sprintf("expected one store filling the weighted array, found %d", n))
+						return
+					}
+					I := sfc0.Val(st.Addr.(*ssa.IndexAddr).Index)
+					val := sfc0.Val(st.Val)
+					var ex, ew *Atom
+					for _, at := range FindFn(val, "idx") {
+						switch {
+						case at.Args[0].Equal(xtv):
+							ex = at
+						case at.Args[0].Equal(env.Vars["weights"].RF):
+							ew = at
+						}
+					}
+					if ex == nil || ew == nil || !val.Equal(S.atomRF(ex.ID).Mul(S.atomRF(ew.ID))) || !ex.Args[1].Equal(I) {
+						r.Fail(rB, name+"/weights/elementwise", a.W.InstrPos(st), "the stored element is not xTVals[k]*weights[j] at the same position k: "+clip(val.String(), 160))
+						return
+					}
+					J := ew.Args[1]
+					R := I.Sub(J).Div(env.MustParse("len(xs)"))
+					if R == nil || !S.Integral(R) {
+						r.Fail(rB, name+"/weights/elementwise", a.W.InstrPos(st), "the position is not row*len(xs)+j with j the weight's index: "+clip(I.String(), 120))
+						return
+					}
+					r.OK(rB, name+"/weights/elementwise", a.W.InstrPos(st), "W[r*len(xs)+j] = xTVals[r*len(xs)+j]*weights[j]")
+					// every column (len(weights) = len(xs) past the length guard) and every row
+					b.AnyOf(func() {
+						b.FullScan(rB, name+"/weights/all-columns", a.W.InstrPos(st), sfc0, J, env.MustParse("len(weights)"))
+					}, func() {
+						b.FullScan(rB, name+"/weights/all-columns", a.W.InstrPos(st), sfc0, J, env.MustParse("len(xs)"))
+					})
+					b.FullScan(rB, name+"/weights/all-rows", a.W.InstrPos(st), sfc0, R, env.MustParse("len(terms)"))
+				})
 			} else {
-				e2 := X.EnvFor(fn, "xs", "ys", "weights", "terms")
-				e2.Set("row", rvw.Args[1], nil)
-				// every row 0 … len(terms)-1 is weighted once (in either direction)
-				b.FullScan(rB, name+"/weights/all-rows", a.W.InstrPos(mev.in), mev.fc, rvw.Args[1], e2.MustParse("len(terms)"))
+				mev := one("mat.VecDense).MulElemVec")
+				row := mev.fc.Val(mev.Call.Args[0])
+				b.EqRF(rB, name+"/weights/in-place", a.W.InstrPos(mev.in), mev.fc.Val(mev.Call.Args[1]), row, "each row is multiplied in place")
+				b.EqRF(rB, name+"/weights/vector", a.W.InstrPos(mev.in), mev.fc.Val(mev.Call.Args[2]), S.MakeFn(mat+"NewVecDense", env.MustParse("len(weights)"), env.Vars["weights"].RF), "by the weight vector")
+				rvw := row.SingleAtom()
+				if rvw == nil || rvw.Name != "call:RowView" || !rvw.Args[0].Equal(copyXT) {
+					r.Fail(rB, name+"/weights/rows-of-copy", a.W.InstrPos(mev.in), "the rows weighted are not rows of the copy of XT: "+clip(row.String(), 200))
+				} else {
+					e2 := X.EnvFor(fn, "xs", "ys", "weights", "terms")
+					e2.Set("row", rvw.Args[1], nil)
+					// every row 0 … len(terms)-1 is weighted once (in either direction)
+					b.FullScan(rB, name+"/weights/all-rows", a.W.InstrPos(mev.in), mev.fc, rvw.Args[1], e2.MustParse("len(terms)"))
+				}
 			}
 			// guards
 			acc := S.False()
